@@ -52,6 +52,8 @@ TRUSTED = [
 
 METHODS = {0: "brute", 1: "vptree", 2: "covertree"}
 MAX_CRASHES_PER_STREAM = 6
+# the geodesic routine opens an OpenMP region per matrix: two threads exercise it without 16 spinning ones
+RUN_ENV = {"OMP_NUM_THREADS": "2", "OMP_WAIT_POLICY": "passive"}
 SIG_F3 = "F3:is_connected-decides-reachability-from-sample-0-only"
 
 
@@ -64,7 +66,7 @@ def run_impl(ctx, exe, lines, timeout=600):
     guard = 0
     while start < len(lines) and guard < MAX_CRASHES_PER_STREAM:
         guard += 1
-        r = ctx.run(exe, "\n".join(lines[start:]) + "\n", timeout=timeout)
+        r = ctx.run(exe, "\n".join(lines[start:]) + "\n", timeout=timeout, env=RUN_ENV)
         cur = None
         for line in r.out.splitlines():
             if line.startswith("C "):
@@ -801,6 +803,7 @@ def run(ctx):
         spec_points(ctx, exe, mexe, nt, stats, check_model=False)
         n += len(nt)
 
+    ctx.note("t=%.0fs after build+corpus" % ctx.elapsed())
     # ---- is_connected on explicit graphs: exhaustive small, then random / structured
     small = []
     all_lists = [(1, 1), (1, 2), (2, 1), (2, 2), (2, 3), (3, 1), (3, 2), (4, 1)] + ([] if quick else [(3, 3), (4, 2), (5, 1)])
@@ -834,6 +837,7 @@ def run(ctx):
         hist["graph_random"][kind] = hist["graph_random"].get(kind, 0) + 1
     n += eval_graphs(ctx, exe, mexe, rnd, stats, with_perm_rng=rng)
 
+    ctx.note("t=%.0fs after explicit graphs" % ctx.elapsed())
     # ---- find_neighbors on tie-free point sets, all methods, permutations
     bases = []
     nbase = 70 if quick else 500
@@ -854,6 +858,7 @@ def run(ctx):
     for i in range(0, len(bases), 60):
         n += eval_points(ctx, exe, mexe, bases[i:i + 60], rng, stats, nperm=2)
 
+    ctx.note("t=%.0fs after point sets" % ctx.elapsed())
     # ---- end to end (thorough tier; tapkee.hpp takes minutes to compile): the real Isomap on the same data
     if not quick:
         n += isomap_end_to_end(ctx, bases[:150], stats)
@@ -864,6 +869,7 @@ def run(ctx):
         budget = 60000
     n += search_small_sets(ctx, exe, mexe, stats, budget, rng)
 
+    ctx.note("t=%.0fs after small lattice sets" % ctx.elapsed())
     # ---- a few malformed graphs, one process each: recorded, never a verdict
     for rows in ([[1], [5]], [[1, 1], [0]], [[2], [0], [7]]):
         N, k = len(rows), len(rows[0])
